@@ -100,6 +100,8 @@ CONTEXTS = [b"\x00" * 8, b"Funstuff", bytes(range(248, 256))]
 
 def same(a, b):
     """structural equality; NaN == NaN, -0.0 != 0.0, bool != int, str != bytes"""
+    if isinstance(a, A.OneOf):
+        return any(same(x, b) for x in a)
     if isinstance(a, float) or isinstance(b, float):
         if isinstance(a, bool) or isinstance(b, bool) or not isinstance(a, (int, float)) or not isinstance(b, (int, float)):
             return False
@@ -410,7 +412,8 @@ KNOWN_SERVICES = (0x01, 0x03, 0x0E, 0x10, 0x0A, 0x4C, 0x4D, 0x4E, 0x52, 0x53, 0x
 # cause -> the oracles it explains
 EXPLAINS = {
     "write-STRUCT-handle-produced-after-elements": ("produce-differs", "reproduce-differs"),
-    "get_attribute_list-reply-parsed-UINT-produced-USINT": ("reproduce-differs", "reproduce-exception"),
+    "get_attribute_list-reply-parsed-UINT-produced-USINT": ("reproduce-differs", "reproduce-exception",
+                                                            "parse-exception", "parse-incomplete"),
     "forward_open_large-NCP-below-0x10000-decoded-as-small": ("reproduce-differs", "parse-field-differs"),
     "forward_open-NCP-size0-unproducible-after-parse": ("reproduce-exception",),
     "cpf-unrecognized-item-not-length-limited": ("parse-exception", "parse-incomplete", "parse-field-differs",
@@ -702,7 +705,7 @@ def reply_templates():
     datas = [b"\x01\x00\x02\x00", b"\x00", b"\x07", b"\xff\xfe", bytes(range(256))]
     T["get_attributes_all_reply"] = ({"status": STATUSES, "data": datas}, raw(0x81))
     T["get_attribute_single_reply"] = ({"status": STATUSES, "data": datas}, raw(0x8E))
-    T["get_attribute_list_reply"] = ({"status": STATUSES, "data": [b"\x01\x00\x00\x00\x05\x00", b"\x02\x00\x16\x00", b"\xff\xff", b"\x01\x00\x00\x01"]},
+    T["get_attribute_list_reply"] = ({"status": STATUSES, "data": [b"\x01\x00\x00\x00\x05\x00", b"\x02\x00\x16\x00", b"\xff\xff", b"\x01\x00\x00\x01", b"\x01\x00\x00\x00\x05"]},
                                      raw(0x83))
     apps = [b"", b"\x01\x02", b"abcd", bytes(range(254))]
 
